@@ -1,6 +1,7 @@
 import PoolProofs.BatchLemmas
 import PoolProofs.BatchSpec
 import PoolProofs.BatchExamples
+import PoolProofs.BatchPerm
 /-!
 # C01 — an accepted batch honours each order's price, size and counterparty terms
 
@@ -78,6 +79,33 @@ theorem C01_pending_set_iff_ok (env : Env) (rules : Rules) (b : Batch) (best : U
   split
   · rfl
   · split <;> rfl
+
+/-- **Order independence.** Go iterates the `MatchedOrders` map in an unspecified order, once in `Verify` and once
+in the manager's node-filter loop.  Whatever the two orders (`l`, `l2` permutations of the map's entries), the
+accept/reject decision is the same – for the code as found and the repaired code alike. -/
+theorem C01_accept_order_independent (env : Env) (rules : Rules) (b : Batch) (best : UInt32)
+    (l l2 : List (Nonce × List Their)) (hl : l.Perm b.matched) (hl2 : l2.Perm b.matched) :
+    acceptsWith env rules b best l l2 = acceptsWith env rules b best b.matched b.matched := by
+  unfold acceptsWith
+  rw [verifyWith_perm env rules b best hl]
+  congr 1
+  have h1 := nodeFilter_isOk_iff env l2
+  have h2 := nodeFilter_isOk_iff env b.matched
+  have : isOk (nodeFilter env l2) = true ↔ isOk (nodeFilter env b.matched) = true := by
+    rw [h1, h2]
+    constructor
+    · intro h nm hnm; exact h nm (hl2.mem_iff.mpr hnm)
+    · intro h nm hnm; exact h nm (hl2.mem_iff.mp hnm)
+  cases ha : isOk (nodeFilter env l2) <;> cases hb : isOk (nodeFilter env b.matched) <;> simp_all
+
+/-- `acceptsWith … b.matched b.matched` is the model's `orderMatchValidate` -/
+theorem C01_acceptsWith_self (env : Env) (rules : Rules) (b : Batch) (best : UInt32) (pending : Option String) :
+    acceptsWith env rules b best b.matched b.matched = isOk (orderMatchValidate env rules b best pending).1 := by
+  unfold acceptsWith orderMatchValidate
+  rw [← verify_eq_verifyWith]
+  cases verify env rules b best with
+  | error e => simp [isOk]
+  | ok st => cases nodeFilter env b.matched <;> simp [isOk]
 
 /-- the uint32 wrap-around of `hint-3` / `hint+3` can only reject: acceptance implies the integer window -/
 theorem C01_height_window (best hint : UInt32) (h : heightOk best hint = true) :
